@@ -191,6 +191,13 @@ def r2_scoped_id(c, facts):
         c.ok(R, {'push_scope': 'pushes an id obtained by incrementing the sequence in this call'})
     else:
         c.bad(R, 'push_scope:id-not-fresh', 'push_scope no longer draws a fresh scope id per push: two applications share scoped names')
+    # one evaluation context per compilation: the scope-id sequence and the reference table are never restarted
+    cn = c.anchor(R, 'oal_compiler::eval::Context::new')
+    callers = sorted({f.qname for f in facts.fns.values() if f.mir and any(callee_of(t) and callee_of(t)['id'] == cn.id for b, t in f.calls())})
+    if callers == ['oal_compiler::eval::eval']:
+        c.ok(R, {'Context::new': 'called only by eval::eval'})
+    else:
+        c.bad(R, 'context-created-in:%s' % ','.join(callers), 'an evaluation Context is created in %s: a nested context restarts the scope-id sequence, so two instantiations of one rec expression get the same component name' % callers)
     dg = c.anchor(R, 'oal_model::grammar::NodeRef::digest')
     didx = MF.defs_index(dg)
     ups = P.call_blocks(dg, 'Digest::update', 'Update::update')
@@ -236,6 +243,10 @@ def r3_cut_agree(c, facts):
     if res2 is None:
         c.bad(R, 'check_recursion:no-predicate', 'check_recursion no longer rejects non-schema recursion')
         return
+    if res1.get('Var') == TRUE or res2.get('Var') == FALSE:
+        c.bad(R, 'unresolved-tag-treated-as-cut-point', 'a definition whose tag is still a variable is treated as a referential (schema) node: a cycle of plain aliases is accepted and emitted as components that only refer to each other')
+    else:
+        c.ok(R, {'unresolved tags': 'never a cut point'})
     a = {t for t, v in res1.items() if v == TRUE} - {'Var'}
     b = {t for t, v in res2.items() if v == FALSE} - {'Var'}
     inst = {'cycles_check_cut_tags': sorted(a), 'check_recursion_admitted_tags': sorted(b)}
@@ -290,7 +301,24 @@ def r3_cut_agree(c, facts):
         c.bad(R, 'edges-not-removed', 'cycles_check no longer removes the incoming edges of referential definitions (the loop never converges or never cuts)')
 
 
+def r4_graph_complete(c, facts):
+    import c08
+    R = c.rule('C09.R4', 'GRAPH-COMPLETE: every use inside a declaration contributes an edge to the definition graph (shared with C08.R2)')
+    c.shared(R, c08.r2_pairing, 'C08.R2', facts)
+    df = c.anchor(R, 'oal_compiler::resolve::define_variable')
+    if P.call_blocks(df, 'resolve::Builder::connect'):
+        c.ok(R, {'define_variable': 'connects the current definition to every external definition it uses'})
+    else:
+        c.bad(R, 'uses-not-connected', 'define_variable no longer records a dependency edge for an external definition')
+    co = c.anchor(R, 'oal_compiler::resolve::Builder::connect')
+    if P.call_blocks(co, 'add_edge'):
+        c.ok(R, {'Builder::connect': 'adds the edge current -> used'})
+    else:
+        c.bad(R, 'connect-adds-no-edge', 'Builder::connect no longer adds an edge')
+
+
 def run(c, facts):
+    c.run(r4_graph_complete, facts)
     c.run(r1_marker, facts)
     c.run(r2_scoped_id, facts)
     c.run(r3_cut_agree, facts)
